@@ -47,6 +47,19 @@ func (r Response) EncodeHeader() ([]byte, error) {
 			valueE.EncodeByteString([]byte(strconv.Itoa(r.Status)))
 		}),
 	}
+	// Refuse what the reader refuses (see decodeCborHeaders and loadResponse), so
+	// that no bundle is written that cannot be read back.
+	if r.Status < 100 || r.Status > 999 {
+		return nil, fmt.Errorf("bundle: Failed to encode response header: status %d is not a three-digit status code", r.Status)
+	}
+	for name, value := range r.Header {
+		if strings.HasPrefix(name, ":") || !isAscii(name) {
+			return nil, fmt.Errorf("bundle: Failed to encode response header: invalid header name %q", name)
+		}
+		if !isAscii(normalizeHeaderValues(value)) {
+			return nil, fmt.Errorf("bundle: Failed to encode response header: non-ascii value of header %q", name)
+		}
+	}
 	for name, value := range r.Header {
 		mes = append(mes,
 			cbor.GenerateMapEntry(func(keyE *cbor.Encoder, valueE *cbor.Encoder) {
@@ -95,7 +108,27 @@ type indexSection struct {
 	bytes []byte
 }
 
+// checkURL refuses a URL that the reader would refuse when it parses the
+// serialized form back: one with a fragment or credentials and, where the
+// reader requires it, one that is not absolute.
+func checkURL(u *url.URL, what string, mustBeAbsolute bool) error {
+	if u == nil {
+		return fmt.Errorf("bundle: %s is missing", what)
+	}
+	parsed, err := url.Parse(u.String())
+	if err != nil {
+		return fmt.Errorf("bundle: %s (%s) does not parse: %v", what, u, err)
+	}
+	if parsed.Fragment != "" || parsed.User != nil || (mustBeAbsolute && !parsed.IsAbs()) {
+		return fmt.Errorf("bundle: %s (%s) must not have a fragment or credentials", what, u)
+	}
+	return nil
+}
+
 func (is *indexSection) addExchange(e *Exchange, offset, length int) error {
+	if err := checkURL(e.Request.URL, "exchange URL", false); err != nil {
+		return err
+	}
 	variants := normalizeHeaderValues(e.Response.Header[http.CanonicalHeaderKey("variants")])
 	variantKey := normalizeHeaderValues(e.Response.Header[http.CanonicalHeaderKey("variant-key")])
 	ent := &indexEntry{
@@ -427,6 +460,9 @@ type primarySection struct {
 func (ps *primarySection) Name() string { return "primary" }
 
 func newPrimarySection(url *url.URL) (*primarySection, error) {
+	if err := checkURL(url, "primary URL", true); err != nil {
+		return nil, err
+	}
 	var ps primarySection
 	enc := cbor.NewEncoder(&ps)
 	if err := enc.EncodeTextString(url.String()); err != nil {
@@ -442,6 +478,9 @@ type manifestSection struct {
 func (ms *manifestSection) Name() string { return "manifest" }
 
 func newManifestSection(url *url.URL) (*manifestSection, error) {
+	if err := checkURL(url, "manifest URL", true); err != nil {
+		return nil, err
+	}
 	var ms manifestSection
 	enc := cbor.NewEncoder(&ms)
 	if err := enc.EncodeTextString(url.String()); err != nil {
@@ -506,6 +545,9 @@ func addExchange(is *indexSection, rs *responsesSection, e *Exchange) error {
 }
 
 func writePrimaryURL(w io.Writer, url *url.URL) error {
+	if url == nil {
+		return errors.New("bundle: this version of the WebBundle requires a primary URL")
+	}
 	enc := cbor.NewEncoder(w)
 	return enc.EncodeTextString(url.String())
 }
